@@ -266,8 +266,8 @@ fn ext_calls(rep: &Report, tier: Tier) {
         for &p in &[0usize, 1, 7, 4080, 4090] {
             let pd = pdu(p, 0);
             for l in [L6A, L3A, Lbl::Bcast] {
-                for prior in [Prior::Fresh, Prior::Same] {
-                    if prior == Prior::Same && !l.is_addr() {
+                for prior in [Prior::Fresh, Prior::Same, Prior::SameAtMax, Prior::Other] {
+                    if matches!(prior, Prior::Same | Prior::SameAtMax) && !l.is_addr() {
                         continue;
                     }
                     let base = build_prior(FastCrc, prior, l);
